@@ -13,7 +13,12 @@ search     : harness/c13_timeline.c — corpus modules and generated IT modules 
              channel effects (tools/c13_synth.py: tempo slides T0x/T1x/T00 on otherwise silent channels, Axx/Txx, pattern
              delays SEx/S6x, pattern loops, note delays / cuts) rendered in lockstep by 11 contexts that differ only in the
              output configuration - one of them at master volume 0 for the whole case, one with muted channels and
-             per-channel volumes - under a common control script (position/seek/row/restart calls, injected tempo
+             per-channel volumes - and IT modules with embedded MIDI macros that set the filter from every macro variable
+             (gen_c14_synth.macro_modules) and Protracker modules with several sequences, under a common control script that
+             in one case of two restarts the player in mid-play (xmp_start_player without xmp_end_player: one half of the
+             contexts with the configuration they already have, the other half with a new rate / format, often right after
+             a jump into another sequence or inside a pattern loop); besides the timeline, every mixer voice of the
+             context with the mono flag flipped must be in the same state as in the group, the pan apart (oracle voice_state) (position/seek/row/restart calls, injected tempo
              effects, xmp_set_tempo_factor with factors around the acceptance limit of one of the contexts, tiny /
              huge / zero / negative / infinite / NaN factors, xmp_set_player probes): return value of every control
              call (xmp_set_tempo_factor: among contexts of equal rate - the documented dependence on the sampling
@@ -335,7 +340,18 @@ def run_timeline(ck):
     import c13_synth
     synth = c13_synth.generate(os.path.join(vlib.OUT, "c13-synth"), ck.seed, 2 if quick else 6)
     ck.note("timeline_effect_modules", [os.path.basename(f) for f in synth])
-    mods = synth + pick_modules(ck, 100000)
+    import gen_c14_synth
+    macro = gen_c14_synth.macro_modules(os.path.join(vlib.OUT, "c14-synth"), ck.seed)
+    if quick:       # one module per macro variable in thorough runs, a rotating half in quick runs
+        macro = [f for i, f in enumerate(macro) if (i + ck.seed) % 2 == 0 or f.endswith(("_x.it", "_y.it"))]
+    ck.note("midi_macro_modules", [os.path.basename(f) for f in macro])
+    # Protracker modules with several sequences (sub-songs), written by the C12 check's generator: position control crosses
+    # between sequences before the mid-play restarts
+    sys.path.insert(0, os.path.dirname(os.path.abspath(__file__)))
+    import c12
+    subsong = c12.subsong_modules(ck, os.path.join(vlib.OUT, "c13-synth", "subsong"), 3 if quick else 8)
+    ck.note("multi_sequence_modules", len(subsong))
+    mods = synth + macro + subsong + pick_modules(ck, 100000)
     per = max(1, (len(mods) + nshards - 1) // nshards) * (1 if quick else 6)
     maxframes = 400 if quick else 1500
     nsite = 2 if quick else 3
@@ -357,7 +373,8 @@ def run_timeline(ck):
           "timeline_tempo_factor_rollbacks": 0, "tempo_factor_probes": 0, "tempo_factor_calls": 0, "tempo_factor_accepted": 0,
           "tempo_factor_refused": 0, "tempo_factor_same_rate_pairs_compared": 0, "setter_probes": 0,
           "tempo_factor_model_cases": 0, "tempo_factor_model_agree": 0, "timeline_frames_with_tempo_change": 0,
-          "timeline_effect_module_tempo_changes": 0}
+          "timeline_effect_module_tempo_changes": 0, "voice_states_compared_mono_vs_stereo": 0,
+          "filtered_voice_states_compared_mono_vs_stereo": 0, "timeline_midplay_restarts": 0}
     site_lines, site_expect = [], []
     tf_lines, tf_expect = [], []
     fail_kinds = {}
@@ -401,6 +418,9 @@ def run_timeline(ck):
             st["tempo_factor_same_rate_pairs_compared"] += s.get("tfpairs", 0)
             st["setter_probes"] += s.get("setprobes", 0)
             st["timeline_frames_with_tempo_change"] += s.get("bpmchg", 0)
+            st["timeline_midplay_restarts"] += s.get("restarts", 0)
+            st["voice_states_compared_mono_vs_stereo"] += s.get("voicecmp", 0)
+            st["filtered_voice_states_compared_mono_vs_stereo"] += s.get("voicecmp_filter", 0)
             if "c13tl_" in c["module"]:
                 st["timeline_effect_module_tempo_changes"] += s.get("bpmchg", 0)
             for line, exp in c.get("tfc", []):
@@ -478,6 +498,10 @@ def run_timeline(ck):
                         ck.unproved("correspondence C13Timeline.setTempoFactor vs xmp_set_tempo_factor",
                                     "module %s cseed=%d case: %s\nreal : %s\nmodel: %s" % (c["module"], c["cseed"], line, exp, m))
         ck.note("tempo_factor_formats_x_returns", dict(sorted(seen.items())))
+    if st["timeline_midplay_restarts"] == 0:
+        ck.unproved("timeline oracle coverage", "no case restarted the player in mid-play")
+    if st["filtered_voice_states_compared_mono_vs_stereo"] == 0:
+        ck.unproved("timeline oracle coverage", "no filtered voice was compared between the mono and the stereo context")
     if st["timeline_effect_module_tempo_changes"] == 0:
         ck.unproved("timeline oracle coverage", "the generated modules with per-tick tempo effects never changed the tempo during a case")
     for k, v in st.items():
